@@ -342,9 +342,6 @@ def judge_strong(ctx, spec, load, kind, cspec, site, names, text):
     if site and site[-1][0] == 'v':
         kn = node_at(root, cspec, site[:-1] + (('k', site[-1][1]),))
         allowed.add(kn.start_mark.line + 1)
-    if site and site[-1][0] == 'k':
-        vn = node_at(root, cspec, site[:-1] + (('v', site[-1][1]),))
-        allowed.add(vn.start_mark.line + 1)
     if D.get_at(cspec, site)[0] == 'map' and kind == 'dropped_key':
         mp = site
     else:
